@@ -314,6 +314,18 @@ void xer_variant(const Bytes &x, Rng &rng, Bytes &out, XerVariantStats &vs) {
     unsigned p_ws = (unsigned)rng.below(10), p_cm = (unsigned)rng.below(5), p_et = (unsigned)rng.below(8), p_cr = (unsigned)rng.below(6);
     size_t n = x.size();
     bool in_text = false;        // between a '>' and the next '<'
+    // a prolog in front of the outermost tag: whitespace, a comment, a comment that holds commented-out markup of this very document
+    if(rng.below(16) < p_cm + 1) {
+        switch(rng.below(4)) {
+        case 0: { static const char w[] = "\n  "; out.insert(out.end(), w, w + 3); vs.whitespace++; break; }
+        case 1: { static const char w[] = "<!-- draft -->\n"; out.insert(out.end(), w, w + sizeof w - 1); vs.comments++; break; }
+        case 2: { static const char w[] = "<?xml version=\"1.0\"?>"; out.insert(out.end(), w, w + sizeof w - 1); vs.comments++; break; }
+        default: { static const char a[] = "<!-- was: "; static const char b[] = " -->";
+                   out.insert(out.end(), a, a + sizeof a - 1);
+                   for(size_t i = 0; i < n && i < 200; i++) { if(x[i] == '-' && i + 1 < n && x[i + 1] == '-') continue; out.push_back(x[i]); }   // "--" may not occur inside a comment
+                   out.insert(out.end(), b, b + sizeof b - 1); vs.comments++; break; }
+        }
+    }
     for(size_t i = 0; i < n; i++) {
         uint8_t c = x[i];
         if(c == '<') in_text = false; else if(c == '>') in_text = true;
